@@ -116,7 +116,20 @@ def _decompose(t, tree, ctx):
 
     # branch tree
     for maker, label in ((BranchTree.from_tree, "branch_tree"), (ToBranchTree(), "to_branch_tree")):
-        bt = maker(tree)
+        # in a third of the cases the source tree goes on being edited right after the conversion (every node moved and
+        # re-sized in place through its handle) before anything of the branch tree is looked at: what the branch tree
+        # remembers are the branches as they were when it was made
+        src = tree
+        if n % 3 == (0 if label == "branch_tree" else 1):
+            src = gen_tree.build_tree(t)
+            bt = maker(src)
+            for i in range(n):
+                nd = src.node(i)
+                nd.x = float(nd.x) + 1000.0
+                nd.r = float(nd.r) + 0.5
+            ctx.cls("source-edited-in-place-right-after-the-conversion")
+        else:
+            bt = maker(src)
         root = parents.index(-1)
         want_nodes = sorted({root} | set(want_tips) | set(want_furc))
         tags = [int(v) for v in bt.get_ndata("tag")]
@@ -142,7 +155,7 @@ def _decompose(t, tree, ctx):
             ctx.check(got_pts == want_pts, f"{label}/remembers-branch-points",
                       lambda: f"node tagged {tg}: {len(got_list)} stored branches, expected {len(want_pts)}")
             for br in got_list:
-                ctx.check(not np.shares_memory(br.attach.ndata["x"], tree.ndata["x"]),
+                ctx.check(not np.shares_memory(br.attach.ndata["x"], src.ndata["x"]),
                           f"{label}/branches-detached", "stored branch shares storage with the tree")
         ctx.check(set(bt.branches) <= set(range(len(tags))), f"{label}/branch-keys", "unknown key")
         ctx.check(len(bt.get_origin_branches()) == len(want_br), f"{label}/origin-branches",
@@ -163,5 +176,6 @@ SUBCHECKS = [
     Sub("decompose", case_strategy, run_case, quick=1500, thorough=20000, shards_quick=4,
         required={"single-node": 20, "unbranched-chain": 20, "rootdeg:1": 20, "rootdeg:2": 20,
                   "rootdeg:3+": 20, "furcations>=2": 200, "permuted": 200,
-                  "derived-tree-decomposed-after-its-source:sort": 100, "derived-tree-decomposed-after-its-source:redirect": 100}),
+                  "derived-tree-decomposed-after-its-source:sort": 100, "derived-tree-decomposed-after-its-source:redirect": 100,
+                  "source-edited-in-place-right-after-the-conversion": 300}),
 ]
